@@ -287,13 +287,34 @@ class Fn:
             def visit_Name(self, n):
                 if isinstance(n.ctx, ast.Load) and n.id not in seen:
                     defs = fn.local_defs(n.id)
-                    if len(defs) == 1 and not fn.is_param(n.id) and fn._simple_def(n.id):
+                    if len(defs) == 1 and not fn.is_param(n.id) and fn._simple_def(n.id) and not fn._stale_in_loop(n.id, e):
                         d = defs[0]
                         if not any(isinstance(x, ast.Name) and x.id == n.id for x in ast.walk(d)):
                             return fn._expand(d, depth - 1, seen | {n.id})
                 return n
 
         return T().visit(clone(e))
+
+    def _stale_in_loop(self, name: str, use: ast.AST) -> bool:
+        """the single definition of `name` lies outside a loop that contains the use, reads object state (an attribute
+        chain) and the loop writes that state: the local holds the value from before the loop, the expression does not"""
+        loop = getattr(use, "_parent", None)
+        while loop is not None and not isinstance(loop, (ast.For, ast.While, ast.AsyncFor)):
+            loop = getattr(loop, "_parent", None)
+        if loop is None:
+            return False
+        ds = self.assigns(chain=name)
+        if len(ds) != 1 or ds[0][2] is None or _inside(ds[0][0], loop):
+            return False
+        reads = {attr_chain(x) for x in ast.walk(ds[0][2]) if isinstance(x, ast.Attribute)} - {None}
+        if not reads:
+            return False
+        for st, t, v in self.assigns():
+            if _inside(st, loop):
+                c = attr_chain(t) if isinstance(t, (ast.Attribute, ast.Name)) else attr_chain(getattr(t, "value", None)) if isinstance(t, ast.Subscript) else None
+                if c and any(c == r or r.startswith(c + ".") or c.startswith(r + ".") for r in reads):
+                    return True
+        return False
 
     def _simple_def(self, name: str) -> bool:
         """the single definition is `name = expr` (not tuple unpacking / loop target)"""
